@@ -29,6 +29,7 @@ def miri_available():
 def miri_env():
     env = dict(V.ENV)
     env["MIRI_SYSROOT"] = os.path.join(V.TARGET, "miri-sysroot")
+    env["CARGO_TARGET_DIR"] = os.path.join(V.TARGET, "miri")
     return env
 
 
